@@ -15,7 +15,7 @@ from . import rules_c05
 LEVEL = "other"
 U64 = "/repo/stdlib/asm/math/u64.masm"
 U256 = "/repo/stdlib/asm/math/u256.masm"
-NOT_DECIDED = {"rotl": "the range of the recombined limb needs a bit-level argument (low bits of a shifted limb are zero)", "rotr": "same as rotl"}
+NOT_DECIDED = {}
 # bit counts: (u32 instruction, limb examined first, value of that limb for which the count continues into the other limb)
 BITCOUNT = {"clz": ("u32clz", "hi", 0), "ctz": ("u32ctz", "lo", 0), "clo": ("u32clo", "hi", U32 - 1), "cto": ("u32cto", "lo", U32 - 1)}
 # u256 procedures carry no `#!` specification (except mul_unsafe): the specification is the one their names state, with the limb layout documented at mul_unsafe
@@ -188,10 +188,10 @@ def run_u64(ctx, F):
             ctx.inst(key=key, nontrivial=False)
             ctx.analysed("%s: not decided (%s)" % (key, NOT_DECIDED[name] or "bit counting through if.true on uninterpreted u32 functions"))
             continue
-        if name in ("shl", "shr"):
+        if name in ("shl", "shr", "rotl", "rotr"):
             ctx.inst(key=key, nontrivial=True)
             try:
-                ok, why = decide_shift(ctx, key, loc, X, M, name)
+                ok, why = decide_shift(ctx, key, loc, X, M, name) if name in ("shl", "shr") else decide_rot(ctx, key, loc, X, M, name)
             except (Undecided, MasmError) as e:
                 ctx.violation("UNANALYSABLE|%s" % key, loc, str(e)[:300])
                 continue
@@ -425,6 +425,46 @@ def decide_shift(ctx, key, loc, X, M, name):
                     if df and df[0] == "quot":
                         extra = "; %s = floor(%r / %r), which is 1 for a_lo = 2^32 - 1" % (v, df[1], df[2]) if df[2].const_value() == U32 - 1 else "; %s = floor(%r / %r)" % (v, df[1], df[2])
                 return False, "for b >= 32 (2^b = 2^32 * D) the result must be [0, floor(a_hi / D)] but is [c_hi = %r, c_lo = %r]%s" % (c_hi.z, c_lo.z, extra)
+    return True, ""
+
+
+def decide_rot(ctx, key, loc, X, M, name):
+    """rotl / rotr: decided for each of the 32 values of s = b mod 32 with 2^s (rotl) resp. 2^(32-s) (rotr) as a constant:
+    with limbs (r_hi, r_lo) = A*D - (2^64 - 1)*h, h = floor(A*D / 2^64), the result for the un-swapped case is rotl(A, log2 D) and
+    the other case of the `b > 31` flag has the limbs swapped (a rotation by a further 32 bits). The decomposition
+    b = (b & 31) + 32*[b > 31] for b < 64 is the arithmetic fact relied on."""
+    ins = [Val(ZP.var("b"), 63), Val(ZP.var("a_hi"), U32 - 1), Val(ZP.var("a_lo"), U32 - 1)]
+    A = ZP.var("a_hi") * ZP.const(U32) + ZP.var("a_lo")
+    undecided = []
+    for s_ in range(32):
+        D = 2 ** s_ if name == "rotl" else 2 ** (32 - s_)
+        try:
+            st = run_case(X, M, name, ins, {"pow2": "concrete", "pow2_value": D})
+        except Undecided as e:
+            undecided.append((s_, str(e)))
+            continue
+        check_frame(ctx, key, loc, st, 2, 3)
+        pw = [n for n in st.notes if n[0] == "pow2"]
+        flags = [v for v in st.defs if st.defs[v][0] == "borrow" and st.defs[v][1].const_value() == 31 and repr(st.defs[v][2]) == "b"]
+        if len(pw) != 1 or len(flags) != 1:
+            return False, "s = %d: expected one pow2 and one `31 < b` flag" % s_
+        # the exponent handed to pow2: b & 31 (rotl) or 32 - (b & 31) (rotr)
+        k = flags[0]
+        c = st.stack[:2]
+        if not all(v.ub < U32 and not v.wrapped for v in c):
+            return False, "s = %d: a result limb is not provably a u32 value (bounds %s)" % (s_, [v.ub for v in c])
+        lim = {kv: [v.z.subst({k: ZP.const(kv)}) for v in c] for kv in (0, 1)}
+        straight = 0 if name == "rotl" else 1        # value of the flag for which the limbs come out un-swapped
+        Xv = lim[straight][0] * ZP.const(U32) + lim[straight][1]
+        hs = [v for v in st.defs if st.defs[v][0] == "mulhi"]
+        ok = any((Xv - (A * ZP.const(D) - ZP.const(U32 ** 2 - 1) * ZP.var(h))).is_zero() for h in hs)
+        if not ok:
+            return False, "s = %d: with the flag = %d the result is not rotl(a, %d) = a*%d - (2^64 - 1)*floor(a*%d / 2^64): %s" % (s_, straight, D.bit_length() - 1, D, D, repr(Xv)[:120])
+        other = lim[1 - straight]
+        if not (other[0] == lim[straight][1] and other[1] == lim[straight][0]):
+            return False, "s = %d: the two cases of the `b > 31` flag are not limb swaps of each other" % s_
+    if undecided:
+        ctx.analysed("%s: not decided for b mod 32 in %s (%s)" % (key, [u[0] for u in undecided], undecided[0][1][:140]))
     return True, ""
 
 
